@@ -7,7 +7,8 @@ Primitives are UNINTERPRETED symbols (only congruence and the listed size facts 
                        (alg = 160 SHA-1, 256/384/512 SHA-256/384/512 (FIPS 180-4 sizes listed); any other integer: some hash)
   HMAC(alg, key, data) RFC 2104 HMAC over hash `alg`                       (C03 proves the HMAC object against it)
   PRF(fid, p, s)       the caller-supplied pseudorandom function with identity fid (a deterministic total function)
-  xor(a, b)            bytewise exclusive or of two strings of equal length
+  bytes_xor(a, b)      (clause-language builtin) bytewise exclusive or of two strings of equal length: defined byte by byte when
+                       the common length is fixed, otherwise a symbol of which only the length is known
   romix(N, block)      scryptROMix_{Salsa20/8}(r = len(block)/128, block, N)   (RFC 7914 section 5; C code, bounded)
   eksblowfish(...)     bcrypt's EksBlowfish + 64 x ECB encryption               (C code, bounded)
 
@@ -28,7 +29,6 @@ SIG = {
     'HMAC': {'sort': 'bytes', 'uf': True, 'facts': ['len(result) == hlen(alg)']},
     'PRF': {'sort': 'bytes', 'uf': True},
     'H': {'sort': 'bytes', 'uf': True, 'facts': ['len(result) == hlen(alg)']},
-    'xor': {'sort': 'bytes', 'uf': True, 'facts': ['len(result) == len(a)']},
     'romix': {'sort': 'bytes', 'uf': True, 'facts': ['len(result) == len(block)']},
     'eksblowfish': {'sort': 'bytes', 'uf': True, 'facts': ['len(result) == len(constant)']},
     # ---- RFC 5869 ---------------------------------------------------------------------------------------------------
@@ -46,7 +46,7 @@ SIG = {
                  'facts': ['result == ite(j <= 1, u1, prf(kind, fid, p, pbkdf2_U(kind, fid, p, u1, j - 1)))']},
     # U_1 \xor U_2 \xor ... \xor U_j
     'pbkdf2_X': {'sort': 'bytes', 'uf': True,
-                 'facts': ['result == ite(j <= 1, u1, xor(pbkdf2_X(kind, fid, p, u1, j - 1), pbkdf2_U(kind, fid, p, u1, j)))']},
+                 'facts': ['result == ite(j <= 1, u1, bytes_xor(pbkdf2_X(kind, fid, p, u1, j - 1), pbkdf2_U(kind, fid, p, u1, j)))']},
     # T_1 || T_2 || ... || T_n
     'pbkdf2_blocks': {'sort': 'bytes', 'uf': True,
                       'facts': ['result == ite(n <= 0, b"", pbkdf2_blocks(kind, fid, p, s, c, n - 1) + pbkdf2_F(kind, fid, p, s, c, n))']},
@@ -86,10 +86,6 @@ def H(alg, data):
     pass
 
 
-def xor(a, b):
-    pass
-
-
 def romix(N, block):
     pass
 
@@ -100,9 +96,7 @@ def eksblowfish(password, cost, salt, constant, invert):
 
 def prf(kind, fid, p, s):
     """the pseudorandom function of PBKDF2: HMAC over hash `fid` (kind 0) or the caller's function `fid` (kind 1)"""
-    if kind == 0:
-        return HMAC(fid, p, s)
-    return PRF(fid, p, s)
+    return ite(kind == 0, HMAC(fid, p, s), PRF(fid, p, s))
 
 
 def ceil_div(a, b):
